@@ -107,6 +107,15 @@ Int, Byte, Real, Bool, Str, NoneK = KInt(), KByte(), KReal(), KBool(), KStr(), K
 Bytes = KView(Byte)
 
 
+class KOpaque(Kind):
+    """A value the model does not track at all (exception-effect contracts): every operation on it may raise."""
+    def __repr__(self):
+        return 'Untracked'
+
+
+Untracked = KOpaque()
+
+
 # ---------------------------------------------------------------- values
 class Tup:
     def __init__(self, items):
